@@ -591,7 +591,7 @@ func (t *FnTrans) copyBuiltin(x *ssa.Call, c *ssa.CallCommon, args []Val, st *He
 		sOff := src.Sub[1].S
 		srcAt = func(c string) string { return sx("select", srcInner, t.addIdx(sOff, c)) }
 	} else {
-		f := t.declareFun("str.at", []string{"Str", t.mode.idxSort()}, t.mode.intSort(8))
+		f := t.declareFun("gstr.at", []string{"Str", t.mode.idxSort()}, t.mode.intSort(8))
 		srcAt = func(c string) string { return sx(f, src.S, c) }
 	}
 	t.assumps = append(t.assumps, Assump{Guard: reach, Why: "copy: destination contents", F: Formula{Lazy: func() string {
